@@ -198,8 +198,17 @@ func (s *Server) refreshConfiguration(ctx context.Context, seq uint64) {
 	s.applyConfiguration(seq, result[0])
 }
 
-func (s *Server) DidChangeConfiguration(_ context.Context, _ *protocol.DidChangeConfigurationParams) error {
-	go s.refreshConfiguration(context.Background(), s.nextRefresh())
+func (s *Server) DidChangeConfiguration(_ context.Context, params *protocol.DidChangeConfigurationParams) error {
+	seq := s.nextRefresh()
+	if s.client != nil && s.supportsConfiguration {
+		go s.refreshConfiguration(context.Background(), seq)
+		return nil
+	}
+	// The client cannot be asked for its configuration: the settings it sent
+	// along with the notification are all there is.
+	if params != nil && params.Settings != nil {
+		s.applyConfiguration(seq, params.Settings)
+	}
 	return nil
 }
 
